@@ -227,8 +227,21 @@ impl Part for Interleaved {
         let mut expected: Vec<u8> = vec![];
         let mut user_frames = 0usize;
         let mut after_keepalive = 0usize;
+        let mut refused_writes = 0usize;
         for (i, r) in model.iter().enumerate() {
             for (_, f) in c.writes.iter().filter(|(k, _)| *k == i) {
+                if f.len() == 1 {
+                    // a packet that is too large for one or both size modes: when the encoder refuses it nothing may reach
+                    // the wire, and reads must go on either way
+                    match crate::props::c03::seq_packet(f, &mode).and_then(|p| Codec::new(mode.clone()).encode(&p).ok()) {
+                        Some(b) => {
+                            expected.extend_from_slice(&b);
+                            user_frames += 1;
+                        },
+                        None => refused_writes += 1,
+                    }
+                    continue;
+                }
                 if let Ok(p) = decode_one(f, &mode) {
                     if let Ok(b) = Codec::new(mode.clone()).encode(&p) {
                         expected.extend_from_slice(&b);
@@ -260,6 +273,9 @@ impl Part for Interleaved {
         }
         if after_keepalive > 0 {
             ev.class("write-right-after-a-delivered-keep-alive");
+        }
+        if refused_writes > 0 {
+            ev.class("a refused write between reads");
         }
         if c.writes.iter().any(|(_, f)| f.len() == 4 && f[1] == 3 && f[2] == 0 && f[3] == 0) {
             ev.class("the application writes a TINY_NONE itself");
@@ -317,7 +333,11 @@ pub fn run(run: &mut Run) {
     // writes between reads (the connection writes keep-alive replies of its own during reads)
     let strat = (session_strategy(8, 4, 1, false, Some(false)), proptest::collection::vec((0usize..8, frame_strategy(5, 1)), 0..5)).prop_map(|(session, w)| {
         let mode = session.mode();
-        let writes = w.into_iter().map(|(k, f)| (k, frame_bytes(&f, &mode))).collect();
+        let mut writes: Vec<(usize, Vec<u8>)> = w.into_iter().map(|(k, f)| (k, frame_bytes(&f, &mode))).collect();
+        // every third session: the application also tries to write a packet the encoder refuses
+        if session.steps.len() % 3 == 0 {
+            writes.push((session.steps.len() % 4, vec![0xFC + (session.steps.len() % 4) as u8]));
+        }
         InterleavedCase { session, writes }
     });
     let n = run.budget(20_000, 1_000_000);
